@@ -42,6 +42,16 @@ func NewRec(faultNames, reachNames []string) *Rec {
 //go:norace
 func (r *Rec) Fault(i int) { r.faults[i]++; r.Nontrivial = true }
 
+// FaultN counts n firings of a fault kind.
+//
+//go:norace
+func (r *Rec) FaultN(i int, n int) {
+	if n > 0 {
+		r.faults[i] += int64(n)
+		r.Nontrivial = true
+	}
+}
+
 // Reach counts a reach probe.
 //
 //go:norace
